@@ -937,6 +937,18 @@ func DrawKind(t *rapid.T, label string) *Kind {
 // DrawRows draws n values of kind k.
 func DrawRows(t *rapid.T, k *Kind, n int) []ref.Val {
 	out := make([]ref.Val, n)
+	if n > 1100 {
+		// Thousands of rows: one drawn seed, values expanded from it (a draw per value would
+		// make the case, and above all its shrinking, too slow). A few values are still drawn.
+		seed := rapid.IntRange(1, 1<<30).Draw(t, "rows-seed")
+		for i := range out {
+			out[i] = k.Value.Example(seed + i%997)
+		}
+		for j := 0; j < 4; j++ {
+			out[rapid.IntRange(0, n-1).Draw(t, "drawn-row")] = k.Value.Draw(t, "v")
+		}
+		return out
+	}
 	for i := range out {
 		out[i] = k.Value.Draw(t, "v")
 	}
@@ -950,7 +962,11 @@ func RowCount() *rapid.Generator[int] {
 // RowCountWide is RowCount plus, one draw in ten, a count on or next to a
 // power-of-two boundary (chunked or batched decoders tend to break there).
 func RowCountWide() *rapid.Generator[int] {
-	boundary := rapid.SampledFrom([]int{31, 32, 33, 63, 64, 65, 127, 128, 129, 192, 255, 256, 257, 512, 1023, 1024, 1025})
+	boundary := rapid.OneOf(rapid.SampledFrom([]int{31, 32, 33, 63, 64, 65, 127, 128, 129, 192, 255, 256, 257, 512, 1023, 1024, 1025}),
+		rapid.SampledFrom([]int{31, 32, 33, 63, 64, 65, 127, 128, 129, 192, 255, 256, 257, 512, 1023, 1024, 1025}),
+		rapid.SampledFrom([]int{31, 32, 33, 63, 64, 65, 127, 128, 129, 192, 255, 256, 257, 512, 1023, 1024, 1025}),
+		// one boundary draw in four (one case in forty): thousands of rows, on and around page-sized chunks
+		rapid.SampledFrom([]int{4095, 4096, 4097, 8192, 10000}))
 	return rapid.OneOf(rapid.IntRange(0, 4), rapid.IntRange(0, 4), rapid.IntRange(0, 4), rapid.IntRange(0, 30), rapid.IntRange(0, 30),
 		rapid.Just(0), rapid.Just(0), rapid.Just(1), rapid.Just(1), boundary)
 }
